@@ -617,16 +617,16 @@ func genCase(t *rapid.T) Case {
 	if c.Ops == nil {
 		c.Ops = []Op{}
 	}
-	// A garbage collection between two calls costs as much as hundreds of cases: a few percent of the cases get one or two
+	// A garbage collection between two calls costs as much as hundreds of cases: about one case in a hundred gets one or two
 	// (a non-boundary value of the range is tested, rapid draws 0 and the ends far more often than the rest).
-	if len(c.Ops) > 0 && rapid.IntRange(0, 15).Draw(t, "gc") == 11 {
+	if len(c.Ops) > 0 && rapid.IntRange(0, 63).Draw(t, "gc") == 37 {
 		c.Ops[rapid.IntRange(0, len(c.Ops)-1).Draw(t, "gcat")].K = opGC
 		c.Ops[rapid.IntRange(0, len(c.Ops)-1).Draw(t, "gcat2")].K = opGC
 	}
 	return c
 }
 
-const randMix = "rapid: start 0..2, 0..50 ops (Add 43%, RemoveForward/RemoveReverse 17%, Clear 4%, Clone 9%, new independent Bimap 4%, Range/Range-with-stop 9%, Range with read-only nested calls 4%, probes/Len 9%, runtime.GC() once or twice in about 3% of the cases), box/key/value raw ints reduced at run time; "
+const randMix = "rapid: start 0..2, 0..50 ops (Add 43%, RemoveForward/RemoveReverse 17%, Clear 4%, Clone 9%, new independent Bimap 4%, Range/Range-with-stop 9%, Range with read-only nested calls 4%, probes/Len 9%, runtime.GC() once or twice in about 1% of the cases), box/key/value raw ints reduced at run time; "
 
 var specRand = pbt.Register(&pbt.Spec[Case]{
 	Property: "C11", Name: "C11.rand", Rule: randMix + "Bimap[K,V] with K, V distinct named int types, keys 0..3 (+4,5 probe-only), values 100..103 (+104,105); " + rule,
